@@ -299,6 +299,7 @@ class Runner:
                 self.tags.add("notify-tie")
         if any(self.state[w].get("thrown") for w in cands[:k]):
             self.tags.add("notify-hits-thrown-waiter")
+        self._ready_before = len(self.loop._ready)
 
     def post_notify(self, t):
         woken = [w for w in self._pre if not self._pre[w] and self.state[w]["fut"].done()]
@@ -309,6 +310,25 @@ class Runner:
                       f"{[(w, self.state[w]['pri'], self.state[w]['arr']) for w in self._cands]})")
         for w in woken:
             self.state[w]["notified"] = True
+        # order in which the futures were resolved = order in which the woken tasks' wake-up callbacks were
+        # appended to the ready queue by this very call (a waiter detached by task_throw has none)
+        order = []
+        for h in list(self.loop._ready)[self._ready_before:]:
+            tid = self.tid_of(getattr(getattr(h, "_callback", None), "__self__", None))
+            if tid in woken and tid not in order:
+                order.append(tid)
+        want = [w for w in self._expect if w in order]
+        if len(order) >= 2:
+            self.tags.add("notify-resolution-order-observed")
+            pr = [self.state[w]["pri"] for w in sorted(order, key=lambda w: self.state[w]["arr"])]
+            if pr != sorted(pr):
+                self.tags.add("notify-resolution-order-differs-from-arrival")
+        if order != want and sorted(order) == sorted(want):
+            self.fail("notify-order",
+                      f"notify resolved the futures of {order} in that order; by (priority at wait start, "
+                      f"arrival) the order is {want} "
+                      f"({[(w, self.state[w]['pri'], self.state[w]['arr']) for w in want]})")
+        self.emit("woken", t, order)
 
     # ------------------------------------------------------------------ environment
     def new_exc(self, t, cls):
@@ -426,6 +446,9 @@ class Runner:
                 continue
             if k == "notify":
                 out.append(f"ev notify {t} {e[2]}" if e[2] is not None else f"ev notifyAll {t}")
+                continue
+            if k == "woken":
+                out.append("chk woken " + (",".join(map(str, e[2])) or "-"))
                 continue
             if st is None:          # a producer: only lock traffic
                 if k == "acq_ok":
